@@ -55,6 +55,7 @@ def configs(tier):
         for nm in ('int', 'float', 'mixed'):
             add(d=3, q=1, m=2, mode=mode, imputer='joint', storage='batch', names=nm)
         add(d=2, q=2, m=2, mode=mode, imputer='joint', storage='batch', labels=2)
+        add(d=2, q=1, m=2, mode=mode, imputer='joint', storage='batch', labels=4, _cost=100)
         add(d=2, q=1, m=2, mode=mode, imputer='joint', storage='batch', q_call=2)
         add(d=2, q=2, m=2, mode=mode, imputer='joint', storage='batch', ignored=1)
         for imp in ('joint', 'product'):
